@@ -321,6 +321,6 @@ theorem parse_print (d : Dataset) (s : Text) (hp : printDs d = .ok s) (hwf : WFd
     have s4 := closing_print 0 d.name [] hwf.1
     have hins := insertAll_nodup (normL d.kids 0) (by rw [normL_names]; exact hwf.2.2)
     rw [e0]
-    simp only [parseDds, s1, s2, s3, s4, hins, normDs]
+    simp only [parseDds, parseDdsWith, s1, s2, s3, s4, hins, normDs]
 
 end Pydap.Dds
